@@ -24,7 +24,10 @@
                  bound trips), RetBalanced (at ret d = 0 and x = [returns long
                  double]), DepthLogged (at every `# V:stmt` marker the generator's
                  own `depth` equals -d: Level I accounting = Level A machine),
-                 CallAligned (d even at every call; frames are multiples of 16).
+                 CallAligned (d even at every call; frames are multiples of 16),
+                 X87EmptyAtCall (psABI 3.2.1/3.2.3: the x87 registers are scratch and %st0 carries the
+                 result, so a callee may use all eight: a value left on the register stack across a
+                 call is lost as soon as the callee needs the registers).
      mode "st"   from `# V:stmt+ s` with (0, 0), stopping at `# V:stmt- s`:
                  StmtBalanced: every arrival there is with (0, 0) - evaluating
                  the statement any number of times leaves both stacks where
@@ -73,6 +76,10 @@ Check ==
   ELSE IF i.k = "stmt-" /\ mode = "st" /\ i.n = sid /\ ~xu /\ x # 0 THEN "x87-residue-at-stmt-end"
   ELSE ""
 
+(* a check that does not end the path (so that it cannot hide what lies behind the call) *)
+Soft ==
+  IF Ins.k = "call" /\ mode = "fn" /\ ~xu /\ x # 0 THEN "x87-live-at-call" ELSE ""
+
 Report(kind) ==
   IF Emit
   THEN CSVWrite("%1$s", <<ToJson([f |-> f, fn |-> Prog[f].fn, kind |-> kind, mode |-> mode, sid |-> sid,
@@ -88,7 +95,9 @@ Step ==
      ELSE LET i == Ins
               c == Check
           IN IF c # "" THEN viol' = c /\ Report(c) /\ Stop
+             ELSE IF Soft # "" /\ ~Emit THEN viol' = Soft /\ Stop
              ELSE /\ viol' = viol
+                  /\ (Soft # "" => Report(Soft))
                   /\ CASE i.k = "d"     -> pc' = pc + 1 /\ d' = d + i.n /\ UNCHANGED <<x, xu, al>>
                        [] i.k = "x"     -> pc' = pc + 1 /\ x' = (IF xu THEN x ELSE x + i.n) /\ UNCHANGED <<d, xu, al>>
                        [] i.k = "xinit" -> pc' = pc + 1 /\ x' = 0 /\ xu' = FALSE /\ UNCHANGED <<d, al>>
